@@ -20,11 +20,21 @@
 #elif FAMILY == 5
 #   include <cds/container/michael_list_nogc.h>
 #   include <cds/container/lazy_list_nogc.h>
+#elif FAMILY == 6
+#   include "intrusive.h"
+#   include <cds/intrusive/michael_list_hp.h>
+#   include <cds/intrusive/lazy_list_dhp.h>
+#   include <cds/intrusive/iterable_list_hp.h>
+#elif FAMILY == 7
+#   include "intrusive.h"
+#   include <cds/intrusive/michael_list_rcu.h>
+#   include <cds/intrusive/lazy_list_rcu.h>
 #endif
 
 using namespace vh;
 using namespace cdsmc;
 namespace cc = cds::container;
+namespace ci = cds::intrusive;
 
 namespace {
 
@@ -47,6 +57,20 @@ void family( std::string const& tname, int step, int bq = 2, int bt = 3 )
         if ( !supported ) continue;
         g_scen.push_back( make_scenario<A>( base, p, SetCfg( int( p.threads.size()), 3 ), step <= 6 ? 0 : 1, p.threads.size() > 2 ? 2 : bq, p.threads.size() > 2 ? 2 : bt ));
     }
+    if ( Caps::has_unlink::value ) {
+        // unlink( item ) of the intrusive API: removes exactly that item. INS_F inserts items with another identity than the prefix items
+        add_set_programs<A>( g_scen, base, set_grammar( { UNLINK, INS_F, DEL }, { 1, 2 }, 2, "u" ), 2, 3, step, bq, bt );
+        auto P = [&]( std::string name, TProg pre, std::vector<TProg> th ) {
+            Program p; p.name = name; p.prefix = pre; p.threads = th;
+            g_scen.push_back( make_scenario<A>( base, p, SetCfg( int( th.size()), 3 ), 0, th.size() > 2 ? 2 : bq, th.size() > 2 ? 2 : bt ));
+        };
+        P( "unlink-vs-ins-next", { { INS, 1, 0 }, { INS, 3, 0 } }, { { { UNLINK, 1, 0 }, { HAS, 1, 0 } }, { { INS, 2, 0 }, { HAS, 1, 0 } } } );
+        P( "unlink-vs-del-next", { { INS, 1, 0 }, { INS, 2, 0 } }, { { { UNLINK, 1, 0 }, { HAS, 2, 0 } }, { { DEL, 2, 0 }, { HAS, 1, 0 } } } );
+        P( "unlink-vs-unlink", { { INS, 1, 0 }, { INS, 2, 0 } }, { { { UNLINK, 1, 0 }, { UNLINK, 2, 0 } }, { { UNLINK, 2, 0 }, { UNLINK, 1, 0 } } } );
+        P( "unlink-vs-replace", { { INS, 1, 0 } }, { { { UNLINK, 1, 0 }, { FIND_F, 1, 0 } }, { { DEL, 1, 0 }, { INS_F, 1, 17 } } } );
+        P( "unlink-vs-extract", { { INS, 1, 0 }, { INS, 2, 0 } }, { { { UNLINK, 1, 0 } }, { { EXTRACT, 1, 0 }, { GET, 2, 0 } } } );
+        P( "3t-unlink-ins-ins", { { INS, 2, 0 } }, { { { UNLINK, 2, 0 } }, { { INS, 1, 0 } }, { { INS, 3, 0 }, { HAS, 2, 0 } } } );
+    }
 }
 
 #if FAMILY == 1
@@ -66,6 +90,11 @@ struct trl: public cc::lazy_list::traits { typedef item_cmp compare; typedef cds
 struct trm: public cc::michael_list::traits { typedef item_less less; typedef cds::atomicity::item_counter item_counter; };
 struct trl: public cc::lazy_list::traits { typedef item_cmp compare; typedef cds::atomicity::item_counter item_counter; };
 struct caps_nogc_list: caps_nogc { typedef std::false_type has_update; typedef std::false_type has_ins_f; typedef std::false_type has_find_f; typedef std::false_type has_emplace; };
+#elif FAMILY == 6 || FAMILY == 7
+typedef node_disposer<prop> disp;
+struct caps_i: caps_hp { typedef std::true_type has_unlink; typedef std::false_type has_emplace; };
+struct caps_i_iter: caps_i { typedef std::true_type update_replaces; };
+struct caps_i_rcu: caps_rcu { typedef std::true_type has_unlink; typedef std::false_type has_emplace; };
 #endif
 
 } // namespace
@@ -119,6 +148,28 @@ int main( int argc, char** argv )
     typedef NogcWrap< cc::LazyList<cds::gc::nogc, Item, trl> > ll_nogc;
     family<ml_nogc, NoSmr, caps_nogc_list>( "MichaelList-nogc", 1 );
     family<ll_nogc, NoSmr, caps_nogc_list>( "LazyList-nogc", 2 );
+#elif FAMILY == 6
+    typedef INode< ci::michael_list::node<cds::gc::HP> > mnode;
+    struct mtr: public ci::michael_list::traits { typedef ci::michael_list::base_hook< cds::opt::gc<cds::gc::HP> > hook; typedef disp disposer; typedef item_less less; typedef cds::atomicity::item_counter item_counter; };
+    typedef IWrap< ci::MichaelList<cds::gc::HP, mnode, mtr> > iml_hp;
+    typedef INode< ci::lazy_list::node<cds::gc::DHP> > lnode;
+    struct ltr: public ci::lazy_list::traits { typedef ci::lazy_list::base_hook< cds::opt::gc<cds::gc::DHP> > hook; typedef disp disposer; typedef item_cmp compare; typedef cds::atomicity::item_counter item_counter; };
+    typedef IWrap< ci::LazyList<cds::gc::DHP, lnode, ltr> > ill_dhp;
+    typedef INode< no_hook > inode;
+    struct itr: public ci::iterable_list::traits { typedef disp disposer; typedef item_less less; typedef cds::atomicity::item_counter item_counter; };
+    typedef IWrap< ci::IterableList<cds::gc::HP, inode, itr>, true > iil_hp;
+    family<iml_hp, HpHolder<6>, caps_i>( "intrusive-MichaelList", 3 );
+    family<ill_dhp, DhpHolder, caps_i>( "intrusive-LazyList-cmp", 6 );
+    family<iil_hp, HpHolder<8>, caps_i_iter>( "intrusive-IterableList", 6 );
+#elif FAMILY == 7
+    typedef INode< ci::michael_list::node<rcu_gpb> > mnode;
+    struct mtr: public ci::michael_list::traits { typedef ci::michael_list::base_hook< cds::opt::gc<rcu_gpb> > hook; typedef disp disposer; typedef item_less less; typedef cds::atomicity::item_counter item_counter; };
+    typedef IWrap< ci::MichaelList<rcu_gpb, mnode, mtr> > iml_rcu;
+    typedef INode< ci::lazy_list::node<rcu_gpb> > lnode;
+    struct ltr: public ci::lazy_list::traits { typedef ci::lazy_list::base_hook< cds::opt::gc<rcu_gpb> > hook; typedef disp disposer; typedef item_cmp compare; typedef cds::atomicity::item_counter item_counter; };
+    typedef IWrap< ci::LazyList<rcu_gpb, lnode, ltr> > ill_rcu;
+    family<iml_rcu, GpbHolder, caps_i_rcu>( "intrusive-MichaelList", 5 );
+    family<ill_rcu, GpbHolder, caps_i_rcu>( "intrusive-LazyList-cmp", 6 );
 #endif
 
     Options o; o.property = vh::property().c_str();
